@@ -48,7 +48,11 @@ func c17FieldType(kind int) ast.Type {
 	case fkRefStruct:
 		return ast.NewRef("p", "Bar")
 	case fkAnonStruct:
-		return ast.NewStruct(ast.NewStructField("n", ast.String()), ast.NewStructField("m", ast.NewScalar(ast.KindBool), ast.Required()))
+		n := ast.String()
+		if v.Bool("nconstraint") {
+			n.Scalar.Constraints = []ast.TypeConstraint{{Op: ast.MinLengthOp, Args: []any{int64(2)}}}
+		}
+		return ast.NewStruct(ast.NewStructField("n", n), ast.NewStructField("l", ast.NewArray(ast.String())), ast.NewStructField("m", ast.NewScalar(ast.KindBool), ast.Required()))
 	default:
 		return ast.NewDisjunction(ast.Types{ast.String(), ast.NewScalar(ast.KindBool)})
 	}
@@ -375,6 +379,19 @@ func c17CheckOptionContract(kind int, schemas ast.Schemas, in ast.Option, outs [
 					p := outs[0].Assignments[i].Path
 					v.Assert(len(p) == len(target)+1 && c17SamePath(p[:len(target)], target) && p[len(p)-1].Identifier == f.Name,
 						"C17: struct_fields_as_arguments no longer assigns (a field of) the same target")
+					// each argument is guarded by exactly the constraints of its field
+					var want []ast.TypeConstraint
+					if f.Type.IsScalar() && !f.Type.IsConcreteScalar() {
+						want = f.Type.Scalar.Constraints
+					}
+					got := outs[0].Assignments[i].Constraints
+					v.Assert(len(got) == len(want), "C17: struct_fields_as_arguments guards an argument with constraints its field does not have (or drops them)")
+					for k := range want {
+						if k < len(got) {
+							v.Assert(got[k].Op == want[k].Op && got[k].Argument.Name == f.Name && len(want[k].Args) == 1 && v.DeepEqual(got[k].Parameter, want[k].Args[0]),
+								"C17: struct_fields_as_arguments changed a constraint of a field")
+						}
+					}
 				}
 			}
 		}
